@@ -76,6 +76,19 @@ def linearity_defects(fn, M, ishape, tol, dtype=np.complex128, pairs=True):
             probe("e%d+e%d" % (j, (j + 1) % n), e)
     probe("ones", np.ones(n, complex))
     probe("dense", (1 + 2j) * dense_vec(n))
+    # homogeneity far away from unit scale: a linear map has no absolute thresholds (values treated as zero below
+    # 1e-8, clamps with machine eps, ...).  Compared relative to the scaled reference.
+    for name, sc in (("1e-12*dense", 1e-12), ("1e+12*dense", 1e12)):
+        x = sc * (1 - 0.5j) * dense_vec(n, 3)
+        try:
+            y = np.asarray(fn(x.reshape(ishape).astype(dtype))).ravel()
+        except Exception:
+            continue
+        ref = M @ x
+        if ref.size and np.abs(ref).max() > 0:
+            err = float(np.abs(y - ref).max() / (sc * scale * max(1, n) ** 0.5))
+            if not np.isfinite(err) or err > max(tol, 1e-6 if dtype == np.complex64 else tol) * 10:
+                bad.append((name, err))
     return bad
 
 
